@@ -405,6 +405,10 @@ func runC17(r *Run) {
 		r.check(ok, "ConfigDefault.Next:safe-methods-only", r.fpos(next), "the default Next answers true only when fiber.IsMethodSafe(method) is true",
 			"the default skip predicate can bypass the middleware for a method that is not safe (e.g. PUT or DELETE, which are idempotent by definition but not safe): duplicates of such requests all run the handler")
 	})
+
+	r.rule("R8", "function-valued Config fields the middleware calls are never nil (E1): set by configDefault on every path, also when no config is passed", func() {
+		configFuncFieldsRule(r, idemPkg, "idempotency")
+	})
 }
 
 func tokenOf(st *ssa.Store) string {
